@@ -10,6 +10,9 @@ BENIGN = ("short", "eintr")
 def exec_run(wm_or_world, check, plan, knobs, ctx=None, keep_root=False, is_world=False):
     """Materialise, run once, read the world back. Returns dict(before, after, res[, root])."""
     w = wm_or_world if is_world else world.wm_world(wm_or_world)
+    if knobs and knobs.get("tmpdir_make"):
+        w = dict(w)
+        w[knobs["tmpdir"]] = {"t": "d", "mode": 0o755}     # the awkwardly named TMPDIR exists before the run
     root = core.new_root()
     try:
         core.materialise(w, root)
@@ -29,7 +32,7 @@ def exec_run(wm_or_world, check, plan, knobs, ctx=None, keep_root=False, is_worl
     return out
 
 
-def env_knobs(rng, knobs):
+def env_knobs(rng, knobs, unusable_tmp=False):
     """Per-run environment variation (swarm): argv spelling, relative TMPDIR, trailing slash."""
     if rng.random() < 0.3:
         knobs["argv_style"] = rng.choice(["long", "long_eq", "check_first"])
@@ -38,6 +41,13 @@ def env_knobs(rng, knobs):
         knobs["tmpdir_rel"] = True
     elif r < 0.2:
         knobs["tmpdir_slash"] = True
+    elif r < 0.3:
+        # an existing, writable TMPDIR with an awkward name: not valid UTF-8, spaces, non-ASCII, very long
+        # (a name that is not valid UTF-8 makes Breadlog refuse to build its scratch path: every edit fails cleanly; only
+        # the driver that knows how to judge that - C08 - asks for it)
+        names = ["with space", "ünï-日本", "x" * 120, "a/b/c"] + (["sub-\udcff\udcfe-dir"] * 2 if unusable_tmp else [])
+        knobs["tmpdir"] = "tmp/" + rng.choice(names)
+        knobs["tmpdir_make"] = True
     return knobs
 
 
